@@ -552,18 +552,55 @@ mod proofs {
     }
 
     // @harness id=C06 tier=quick unwind=14 timeout=2400 fs=4096
-    // @desc the validity predicate every evaluator operation applies first (Evaluator::check_ciphertext = is_valid_for + seed check) rejects EVERY single-field corruption of an otherwise valid ciphertext: a residue >= q at any position of any polynomial, a foreign parms id (any bit pattern), size 1, wrong degree, wrong modulus count, buffer shorter than announced, scale != 1 in BFV, correction factor != 1 in BFV, an unexpanded seed marker
-    // @bounds BFV N=2, q={97}; size-2 ciphertext, all other residues canonical; corruption kinds of this harness: out-of-range residue; foreign parms id, corrupted value symbolic
+    // @desc the validity predicate every evaluator operation applies first (Evaluator::check_ciphertext = is_valid_for + seed check) rejects EVERY single-field corruption of an otherwise valid ciphertext -- this harness: a residue >= q at any position of any polynomial (c0 and c1)
+    // @bounds BFV N=2, q={97}; size-2 ciphertext, all other residues canonical; corrupted position: each of the 4 positions in turn; corrupted value any byte >= 97
     // @funcs Ciphertext::is_valid_for, Ciphertext::is_metadata_valid_for, Ciphertext::is_data_valid_for, Ciphertext::is_buffer_valid, Ciphertext::contains_seed
     // @stubs HeContext::get_context_data -> linear search over the literal chain (HashMap lookup outside the claim); alloc::sync::Arc::drop_slow -> no-op (memory reclamation outside the claim)
     #[kani::proof]
     #[kani::stub(crate::context::HeContext::get_context_data, crate::context::verif_v::get_context_data_stub)]
     #[kani::stub(alloc::sync::Arc::drop_slow, crate::verif_v::arc_drop_slow_noop)]
-    fn c06_validity_rejects_residue_or_id() {
+    fn c06_validity_rejects_residue() {
         let ctx = lits::ctx_bfv_n2_1p();
         let pid = *ctx.first_parms_id();
-        let w: bool = kani::any();
-        if w { corrupt_case(&ctx, pid, 0) } else { corrupt_case(&ctx, pid, 1) }
+        let bad: u8 = kani::any(); kani::assume(bad >= 97);
+        let mut k = 0;
+        while k < 4 {
+            let mut b = sym1::<4>(); b[k] = bad as u64;
+            if k != 2 { b[2] = 42; }                       // seed-flag slot concrete unless it is the corrupted one
+            let c2 = ct1(&b, pid, false, 1, 1.0);
+            assert!(!c2.is_valid_for(&ctx) || c2.contains_seed());
+            k += 1;
+        }
+        kani::cover!(true);
+        std::mem::forget(ctx);
+    }
+
+    // @harness id=C06 tier=quick unwind=14 timeout=2400 fs=4096
+    // @desc the validity predicate every evaluator operation applies first (Evaluator::check_ciphertext = is_valid_for + seed check) rejects EVERY single-field corruption of an otherwise valid ciphertext -- this harness: a foreign parms id (any single-word change of the identifier)
+    // @bounds BFV N=2, q={97}; size-2 ciphertext, all other residues canonical; identifier with one bit flipped (bits 0, 17, 63 of each of the 4 words: concrete ids -- a symbolic identifier makes the lookup result a symbolic pointer and does not finish) and the all-zero identifier; residues symbolic
+    // @funcs Ciphertext::is_valid_for, Ciphertext::is_metadata_valid_for, Ciphertext::is_data_valid_for, Ciphertext::is_buffer_valid, Ciphertext::contains_seed
+    // @stubs HeContext::get_context_data -> linear search over the literal chain (HashMap lookup outside the claim); alloc::sync::Arc::drop_slow -> no-op (memory reclamation outside the claim)
+    #[kani::proof]
+    #[kani::stub(crate::context::HeContext::get_context_data, crate::context::verif_v::get_context_data_stub)]
+    #[kani::stub(alloc::sync::Arc::drop_slow, crate::verif_v::arc_drop_slow_noop)]
+    fn c06_validity_rejects_foreign_id() {
+        let ctx = lits::ctx_bfv_n2_1p();
+        let pid = *ctx.first_parms_id();
+        let mut b = sym1::<4>(); b[2] = 42;
+        let mut w = 0;
+        while w < 4 {
+            let mut k = 0;
+            while k < 3 {
+                let mut fp = pid; fp[w] ^= 1u64 << [0, 17, 63][k];
+                let c2 = ct1(&b, fp, false, 1, 1.0);
+                assert!(!c2.is_valid_for(&ctx));
+                k += 1;
+            }
+            w += 1;
+        }
+        let c3 = ct1(&b, crate::PARMS_ID_ZERO, false, 1, 1.0);
+        assert!(!c3.is_valid_for(&ctx));
+        kani::cover!(true);
         std::mem::forget(ctx);
     }
 
@@ -619,8 +656,6 @@ mod proofs {
         let mut b = sym1::<4>();
         let bad: u8 = kani::any();
         let c2 = match which {
-            0 => { kani::assume(bad >= 97); let k: usize = kani::any(); kani::assume(k < 4); b[k] = bad as u64; ct1(&b, pid, false, 1, 1.0) }
-            1 => { let mut fp = pid; let w: usize = kani::any(); kani::assume(w < 4); fp[w] ^= 1 + bad as u64; ct1(&b, fp, false, 1, 1.0) }
             2 => mk_ciphertext(1, 1, 2, vec![b[0], b[1]], pid, 1.0, false, 1),
             3 => mk_ciphertext(2, 1, 4, b.to_vec(), pid, 1.0, false, 1),
             4 => mk_ciphertext(2, 2, 2, b.to_vec(), pid, 1.0, false, 1),
@@ -689,6 +724,23 @@ mod proofs {
     #[kani::stub(crate::context::HeContext::get_context_data, crate::context::verif_v::get_context_data_stub)]
     #[kani::stub(alloc::sync::Arc::drop_slow, crate::verif_v::arc_drop_slow_noop)]
     fn c04_key_switch_lemma_lower_level() {
+        let sk: [u8; 4] = kani::any(); kani::assume(sk[0] < 3 && sk[1] < 3 && sk[2] < 3 && sk[3] < 3);
+        let er: [i8; 2] = kani::any(); kani::assume(er[0] >= -21 && er[0] <= 21 && er[1] >= -21 && er[1] <= 21);
+        let am: [u8; 6] = kani::any();
+        ks_case(sk, er, am, false);
+    }
+
+    // @harness id=C04 tier=quick unwind=14 timeout=3000 fs=4096 mem=24
+    // @desc key switching at a LOWER level of the chain with a fixed key-switching key: for EVERY target polynomial at the last level (ciphertext fixed: it only enters additively), switch_key_inplace_internal changes the phase under s by target*s' plus a noise term bounded by the key error (the special prime -- the LAST key modulus, not the next data prime -- is the one divided out), size/level/representation kept
+    // @bounds BFV N=2, chain {97,113,193} (special prime 193), ciphertext (3,50 | 96,7) at the LAST level {97}; all target residues; fixed keys s = 1 - X, s' = X, key error (3,-2), mask (5,7 | 11,13 | 17,19); the all-keys version is the thorough harness c04_key_switch_lemma_lower_level
+    // @funcs Evaluator::switch_key_inplace_internal, polysmallmod::{ntt_lazy,intt_lazy,modulo,multiply_operand_inplace,add_inplace}, barrett_reduce_u128
+    // @stubs HeContext::get_context_data -> linear search over the literal chain (HashMap lookup outside the claim); alloc::sync::Arc::drop_slow -> no-op (memory reclamation outside the claim)
+    #[kani::proof]
+    #[kani::stub(crate::context::HeContext::get_context_data, crate::context::verif_v::get_context_data_stub)]
+    #[kani::stub(alloc::sync::Arc::drop_slow, crate::verif_v::arc_drop_slow_noop)]
+    fn c04_key_switch_lower_level_fixed_key() { ks_case([1, 2, 0, 1], [3, -2], [5, 7, 11, 13, 17, 19], true); }
+
+    fn ks_case(sk: [u8; 4], er: [i8; 2], am: [u8; 6], fixed_ct: bool) {
         use crate::key::verif_v::{mk_public_key, mk_kswitch_keys};
         let ctx = lits::ctx_bfv_n2();
         let ev = mk_evaluator(ctx.clone());
@@ -697,9 +749,6 @@ mod proofs {
         let kcd = ctx.key_context_data().unwrap();
         let tabs = kcd.small_ntt_tables();
         // secret keys (coefficient form -> NTT form per key modulus with the real transform)
-        let sk: [u8; 4] = kani::any(); kani::assume(sk[0] < 3 && sk[1] < 3 && sk[2] < 3 && sk[3] < 3);
-        let er: [i8; 2] = kani::any(); kani::assume(er[0] >= -21 && er[0] <= 21 && er[1] >= -21 && er[1] <= 21);
-        let am: [u8; 6] = kani::any();
         let mut c0 = [0u64; 6]; let mut c1 = [0u64; 6];
         let mut m = 0;
         while m < 3 {
@@ -723,7 +772,7 @@ mod proofs {
         let digit1 = mk_public_key(mk_ciphertext(2, 3, 2, vec![0; 12], key_pid, 1.0, true, 1));
         let ksk = mk_kswitch_keys(key_pid, vec![vec![digit0, digit1]]);
         // ciphertext and target at the last level (q = 97), coefficient form
-        let c = sym1::<4>(); let tg: [u8; 2] = kani::any(); kani::assume(tg[0] < 97 && tg[1] < 97);
+        let c = if fixed_ct { [3u64, 50, 96, 7] } else { sym1::<4>() }; let tg: [u8; 2] = kani::any(); kani::assume(tg[0] < 97 && tg[1] < 97);
         let target = [tg[0] as u64, tg[1] as u64];
         let mut enc = ct1(&c, last, false, 1, 1.0);
         ev.switch_key_inplace_internal(&mut enc, &target, &ksk, 0);
@@ -744,13 +793,14 @@ mod proofs {
     //      c04_apply_is_substitution / c04_ntt_table_is_substitution / c04_key_switch_lemma_lower_level)
     static mut GAL_ACC: usize = 1;
     static mut GAL_CALLS: usize = 0;
+    static mut GAL_MOD: usize = 32;
     fn apply_galois_recorder(_this: &Evaluator, _encrypted: &mut Ciphertext, galois_elt: usize, galois_keys: &GaloisKeys) {
         assert!(galois_keys.has_key(galois_elt), "rotation requested a Galois element whose key is not present");
-        unsafe { GAL_ACC = (GAL_ACC * galois_elt) % 32; GAL_CALLS += 1; }
+        unsafe { GAL_ACC = (GAL_ACC * galois_elt) % GAL_MOD; GAL_CALLS += 1; }
     }
 
     // @harness id=C04 tier=quick unwind=20 timeout=3600 fs=4096
-    // @desc rotate_internal composes ANY row-rotation step from the default power-of-two keys: the product of the Galois elements it applies equals get_elt_from_step(step) mod 2N (so the composed automorphism is the requested rotation), every element it requests has a key in the default set, and it never panics -- for every step with 0 < |step| < N/2, whether the key is present directly or the step is NAF-composed (including the +-N/2 NAF digits, which are the identity and must be skipped)
+    // @desc rotate_internal composes ANY row-rotation step from the default power-of-two keys: the product of the Galois elements it applies equals get_elt_from_step(step) mod 2N (so the composed automorphism is the requested rotation), every element it requests has a key in the default set, and it never panics -- for every step with 0 < |step| < N/2, whether the key is present directly or the step is NAF-composed (at N=16 only the +N/2 NAF digit occurs -- step 6 = -2+8 --; the -N/2 digit needs N=32: c04_rotation_composition_n32)
     // @bounds BFV N=16 (row length 8), t=97; Galois keys = exactly get_elts_all(); every step in -7..7; apply_galois_inplace stubbed by a recorder
     // @funcs Evaluator::rotate_internal, GaloisKeys::has_key, GaloisTool::get_elt_from_step, GaloisTool::get_elts_all, naf
     // @stubs Evaluator::apply_galois_inplace -> recorder (multiplies the applied elements, checks key presence); HeContext::get_context_data -> linear search over the literal chain; alloc::sync::Arc::drop_slow -> no-op
@@ -780,6 +830,46 @@ mod proofs {
                 ev.rotate_internal(&mut ct, step, &gk);
                 let want = gt.get_elt_from_step(step);
                 assert!(unsafe { GAL_ACC } == want % 32);
+                assert!(unsafe { GAL_CALLS } >= 1);
+                if unsafe { GAL_CALLS } >= 2 { composed += 1; }
+            }
+            step += 1;
+        }
+        kani::cover!(composed >= 4);
+        std::mem::forget(ev); std::mem::forget(ctx); std::mem::forget(cd); std::mem::forget(gk);
+    }
+
+    // @harness id=C04 tier=quick unwind=36 timeout=3600 fs=4096 mem=24
+    // @desc as c04_rotation_composition at N=32 (row length 16), where legal steps exist whose NAF contains the digit -N/2 (-11 = 1+4-16, -13 = -1+4-16) as well as +N/2 (11, 12, 13, 14, 15): both signs of the +-N/2 digit are the identity rotation and must be skipped, never forwarded; the product of the applied Galois elements equals the element of the requested step, every requested element has a default key, no panic
+    // @bounds BFV N=32, q={257,449}, t=193; Galois keys = exactly get_elts_all(); steps -15..-9 and 9..15 (every step whose NAF reaches +-16, plus their neighbours), concrete per case; apply_galois_inplace stubbed by a recorder
+    // @funcs Evaluator::rotate_internal, GaloisKeys::has_key, GaloisTool::get_elt_from_step, GaloisTool::get_elts_all, naf
+    // @stubs Evaluator::apply_galois_inplace -> recorder (multiplies the applied elements, checks key presence); HeContext::get_context_data -> linear search over the literal chain; alloc::sync::Arc::drop_slow -> no-op
+    #[kani::proof]
+    #[kani::stub(crate::context::HeContext::get_context_data, crate::context::verif_v::get_context_data_stub)]
+    #[kani::stub(alloc::sync::Arc::drop_slow, crate::verif_v::arc_drop_slow_noop)]
+    #[kani::stub(crate::evaluator::Evaluator::apply_galois_inplace, apply_galois_recorder)]
+    fn c04_rotation_composition_n32() {
+        use crate::key::verif_v::{mk_public_key, mk_kswitch_keys, mk_galois_keys}; use crate::PublicKey;
+        let ctx = lits::ctx_bfv_n32_2p1();
+        let ev = mk_evaluator(ctx.clone());
+        let key_pid = *ctx.key_parms_id(); let first = *ctx.first_parms_id();
+        let cd = ctx.first_context_data().unwrap();
+        let gt = cd.galois_tool();
+        let elts = gt.get_elts_all();
+        let mut keys: Vec<Vec<PublicKey>> = Vec::new();
+        let mut i = 0; while i < 32 { keys.push(vec![]); i += 1; }
+        let mut i = 0;
+        while i < elts.len() { keys[(elts[i] - 1) / 2] = vec![mk_public_key(Ciphertext::new())]; i += 1; }
+        let gk = mk_galois_keys(mk_kswitch_keys(key_pid, keys));
+        let mut ct = mk_ciphertext(2, 2, 32, vec![0; 128], first, 1.0, false, 1);
+        unsafe { GAL_MOD = 64; }
+        let mut step: isize = -15; let mut composed = 0;
+        while step <= 15 {
+            if step <= -9 || step >= 9 {
+                unsafe { GAL_ACC = 1; GAL_CALLS = 0; }
+                ev.rotate_internal(&mut ct, step, &gk);
+                let want = gt.get_elt_from_step(step);
+                assert!(unsafe { GAL_ACC } == want % 64);
                 assert!(unsafe { GAL_CALLS } >= 1);
                 if unsafe { GAL_CALLS } >= 2 { composed += 1; }
             }
